@@ -9,8 +9,8 @@ require (
 
 require (
 	github.com/golang/snappy v0.0.1
-	github.com/klauspost/compress v1.15.9 // indirect
-	github.com/pierrec/lz4/v4 v4.1.15 // indirect
+	github.com/klauspost/compress v1.15.9
+	github.com/pierrec/lz4/v4 v4.1.15
 )
 
 replace github.com/segmentio/kafka-go => /repo
